@@ -249,7 +249,7 @@ func c13Versioned(r *R) {
 	if gl != nil {
 		var descs []string
 		for _, s := range r.sites(gl, false, "github.com/filecoin-project/go-ds-versioning/pkg/versioned.NewVersionedBuilder") {
-			descs = append(descs, r.d.Of(s.Common().Args[0])+"→"+r.d.Of(s.Common().Args[1]))
+			descs = append(descs, r.dOf(s.(ssa.Instruction)).Of(s.Common().Args[0])+"→"+r.dOf(s.(ssa.Instruction)).Of(s.Common().Args[1]))
 		}
 		want := []string{"func:channels/internal/migrations.NoOpChannelState0To2→\"2\"", "func:channels/internal/migrations.MigrateChannelState2To3→\"3\""}
 		r.c.Check(sameSet(descs, want), "C13.4", "migration-list", r.p.Pos(gl.Pos()), "no-op→2, 2→3", "migration builders are {"+join(descs)+"}")
